@@ -250,7 +250,9 @@ def mutate_value(rng, v):
 
 
 def grammar_value(rng):
-    k = int(rng.integers(0, 16))
+    k = int(rng.integers(0, 17))
+    if k == 16:
+        return np.array(float(rng.normal()))   # 0-dimensional ndarray
     if k == 0:
         return None
     if k == 1:
